@@ -365,11 +365,24 @@ def check_hypotheses(ctx, cases):
             ctx.ob_problems.append(f"compiled program of {c.pattern!r} (flags {c.flags!r}, {c.mode}) does not satisfy the theorem hypotheses {bad}: the theorems of {ctx.prop} do not apply to it")
 
 
-def default_search(ctx, g, j):
-    """re-run the oracle on variants of the disagreeing case: other inputs over the same alphabet"""
-    plug = PLUGINS[ctx.prop]
-    if "regroup" not in plug:
+def generic_regroup(ctx, g, s):
+    """the same requests on another input, for groups of the form (patterns / flags / apis) x one input"""
+    old = g.meta.get("input")
+    if old is None or any(c.api == "history" for c in g.cases) or not all(c.input in (old, "") for c in g.cases):
         return None
+    if any(k in g.meta for k in ("s2", "chars", "expect", "fresh")):
+        return None         # the group's meaning depends on more than the input
+    cs = [Case(c.pattern, c.flags, c.api, s if c.input == old else c.input, c.repl, c.dialect, c.mode, c.limit) for c in g.cases]
+    m = dict(g.meta)
+    m["input"] = s
+    return Group(cs, m)
+
+
+def default_search(ctx, g, j):
+    """re-run the oracle on variants of the disagreeing case: other inputs over the same alphabet, and inputs derived from
+    the pattern's own language (members, members with a character appended / doubled)"""
+    plug = PLUGINS[ctx.prop]
+    regroup = plug.get("regroup", generic_regroup)
     if g.meta.get("l2"):
         # the compiled programs differ: search with the requests of the group this pattern came from
         g = g.meta["src"]
@@ -377,11 +390,23 @@ def default_search(ctx, g, j):
     c = g.cases[j]
     alpha = sorted(set(c.input) | set(ch for ch in c.pattern if ch.isalnum() and not ch.isdigit()) | {"a"})[:4]
     inputs = [""]
+    ast = g.meta.get("ast")
+    if ast is None:
+        try:
+            ast = props2.parse_full(c.pattern)
+        except Exception:
+            ast = None
+    if ast is not None:
+        try:
+            mem = {props2.derive(ctx.rnd, ast)[:10] for _ in range(60)}
+            inputs += sorted(mem | {m + a for m in mem for a in alpha[:2]} | {a + m for m in list(mem)[:20] for a in alpha[:2]} | {m[:-1] + m[-1:] * 2 for m in mem if m})
+        except Exception:
+            pass
     for n in range(1, 6 if ctx.quick() else 8):
         inputs += ["".join(t) for t in itertools.product(alpha, repeat=n)]
         if len(inputs) > 3000:
             break
-    groups = [plug["regroup"](ctx, g, s) for s in inputs[:3000]]
+    groups = [regroup(ctx, g, s) for s in inputs[:3000]]
     groups = [x for x in groups if x]
     allc = [c2 for gg in groups for c2 in gg.cases]
     impl, model = rxlib.run_full(allc)
